@@ -70,7 +70,7 @@ func ShimRulesFor(pl *Plan) []ShimRule {
 		}
 	}
 	for _, o := range pl.Oneshot {
-		rules = append(rules, ShimRule{Match: o.Match, Nth: o.Nth, Status: o.Status, Signal: o.Signal, AtByte: o.AtByte})
+		rules = append(rules, ShimRule{Match: o.Match, Nth: o.Nth, Status: o.Status, Signal: o.Signal, AtByte: o.AtByte, DelayMS: o.DelayMS})
 	}
 	return rules
 }
